@@ -118,10 +118,14 @@ Offset(gs, g, sc) == SumSeq([h \in 1..(g - 1) |-> SumSeq(gs[h])]) + SumSeq([t \i
 OGSpan(n, own, kind) == OS(IF own THEN <<"a", "t" \o N2S(n)>> ELSE <<"a", "b">>, <<"c", "s" \o N2S(n)>>,
                            IF n = 1 THEN <<>> ELSE <<"c", "s1">>, 10 * n, 11 * n, "@n" \o N2S(n),
                            CASE kind = 0 -> <<>> [] kind = 1 -> <<KV("@k1", Sc("str", "@s" \o N2S(n)))>> [] kind = 2 -> <<aP, aL>>, 0)
+(* explicit tuples (function constructors stay lazy inside TLC and make comparing bodies very slow) *)
+Mk(n, F(_)) == CASE n = 0 -> <<>> [] n = 1 -> <<F(1)>> [] n = 2 -> <<F(1), F(2)>> [] n = 3 -> <<F(1), F(2), F(3)>>
 OGBodies(gs) ==
   LET n == GTotal(gs)
-  IN  {OBody([g \in DOMAIN gs |-> Grp(ra[g], [sc \in DOMAIN gs[g] |-> [k \in 1..gs[g][sc] |->
-                    OGSpan(Offset(gs, g, sc) + k, own[Offset(gs, g, sc) + k], kinds[Offset(gs, g, sc) + k])]])]) :
+  IN  {LET scope(g, sc) == LET sp(k) == OGSpan(Offset(gs, g, sc) + k, own[Offset(gs, g, sc) + k], kinds[Offset(gs, g, sc) + k])
+                           IN  Mk(gs[g][sc], sp)
+           group(g) == LET scg(sc) == scope(g, sc) IN Grp(ra[g], Mk(Len(gs[g]), scg))
+       IN  OBody(Mk(Len(gs), group)) :
          kinds \in [1..n -> 0..2], own \in [1..n -> BOOLEAN],
          ra \in {f \in [DOMAIN gs -> {<<>>, <<rSvc, rHost>>, <<rSvc2>>}] : f[1] # <<rSvc2>> /\ (Len(gs) = 2 => f[2] # <<rSvc, rHost>>)}}
 OBodiesGroups(u_) == UNION {OGBodies(gs) : gs \in BodyShapes(0)}
